@@ -605,7 +605,9 @@ def run_resample(case):
     exp = []
   try:
     list(resample([Q(1), Q(2), Q(4), Q(8)], Q(3), Q(2), order=p, zero=Q(5)))                   # decoy call
-    st = resample(list(x), order=p, zero=zero, **kw)
+    xin = [lambda: list(x), lambda: tuple(x), lambda: Stream(list(x)), lambda: iter(list(x)),
+           lambda: (v for v in list(x))][(n + p + RATIOS.index((old, new)) + ("const", "stream", "stream-short").index(mode)) % 5]()
+    st = resample(xin, order=p, zero=zero, **kw)
     got = []
     for v in st:
       got.append(Sym.lift(v))
